@@ -96,6 +96,27 @@ func (i *simImpl) PushDownPredicates(newPredicates, pushedDownPredicates []physi
 	return newPredicates, []physical.Expression{}, false
 }
 
+// simEnv is the environment cmd/root.go builds, with the file datasources it registers and one
+// extra database "sim" (no config file, no plugins, no docs).
+func simEnv(tables map[string]*SimTable) physical.Environment {
+	fileHandlers := map[string]func(ctx context.Context, name string, options map[string]string) (physical.DatasourceImplementation, physical.Schema, error){
+		"csv":   csv.Creator(','),
+		"json":  json.Creator,
+		"lines": lines.Creator,
+		"tsv":   csv.Creator('\t'),
+	}
+	return physical.Environment{
+		Aggregates: aggregates.Aggregates,
+		Functions:  functionMap(),
+		Datasources: &physical.DatasourceRepository{
+			Databases: map[string]func() (physical.Database, error){
+				"sim": func() (physical.Database, error) { return &simDB{tables}, nil },
+			},
+			FileHandlers: fileHandlers,
+		},
+	}
+}
+
 // Planned is a query ready to run.
 type Planned struct {
 	Node          execution.Node
@@ -113,22 +134,7 @@ func PlanSQL(ctx context.Context, sql string, tables map[string]*SimTable, optim
 			outErr = fmt.Errorf("plan panic: %v", p)
 		}
 	}()
-	fileHandlers := map[string]func(ctx context.Context, name string, options map[string]string) (physical.DatasourceImplementation, physical.Schema, error){
-		"csv":   csv.Creator(','),
-		"json":  json.Creator,
-		"lines": lines.Creator,
-		"tsv":   csv.Creator('\t'),
-	}
-	env := physical.Environment{
-		Aggregates: aggregates.Aggregates,
-		Functions:  functionMap(),
-		Datasources: &physical.DatasourceRepository{
-			Databases: map[string]func() (physical.Database, error){
-				"sim": func() (physical.Database, error) { return &simDB{tables}, nil },
-			},
-			FileHandlers: fileHandlers,
-		},
-	}
+	env := simEnv(tables)
 	statement, err := sqlparser.Parse(sql)
 	if err != nil {
 		return nil, fmt.Errorf("couldn't parse query: %w", err)
